@@ -37,13 +37,42 @@ Strats == {"none", "dup", "all"}
 RECURSIVE InfoOf(_)
 InfoOf(offs) == IF offs = <<>> THEN <<>> ELSE UnitBytes(Head(offs), <<0>>) \o InfoOf(Tail(offs))
 
+(*------------------- one cache, two .debug_abbrev sections ---------------*)
+(* BSec has the layout of ASec (tables at 0, 17, 30, 41) with different      *)
+(* content: 0 valid -> valid but different, 17 valid -> duplicate code,      *)
+(* 30 duplicate code -> valid, 41 bad children byte -> valid.                *)
+BSec == <<1,46,0,3,11,16,15,0,0, 2,17,1,3,11,0,0, 0,
+          1,52,0,0,0, 1,11,1,63,25,0,0, 0,
+          3,36,0,0,0, 6,19,0,0,0, 0,
+          4,17,1,0,0,0>>
+SecOf(n) == IF n = "A" THEN ASec ELSE BSec
+Other(n) == IF n = "A" THEN "B" ELSE "A"
+Pool4 == {0, O2, O3, O4}
+RProbe == <<0, O2, O3, O4, 1, Len(ASec), Len(ASec) + 3>>
+AllTwice == <<0, 0, O2, O2, O3, O3, O4, O4>>
+(* what is done to the cache before the last populate *)
+Pres == IF MaxTok <= 3 THEN {"none", "set0"} ELSE {"none", "set0", "set30"}
+Firsts == IF MaxTok <= 3 THEN {AllTwice} ELSE {AllTwice, <<0, O2>>, <<O3, O3, O4>>}
+(* the model cache after: [set]; populate(s1, first section, offs1); populate(s2, other section, offs2) *)
+RCache(r) ==
+    LET x  == SecOf(r.first)
+        y  == SecOf(Other(r.first))
+        c0 == CASE r.pre = "none"  -> EmptyCache
+                [] r.pre = "set0"  -> CacheSet(EmptyCache, 0, AbbrevsAt(x, O2).decls)     \* a table that belongs elsewhere
+                [] r.pre = "set30" -> CacheSet(EmptyCache, O3, AbbrevsAt(ASec, 0).decls)
+        c1 == PopulateOn(c0, r.s1, x, r.offs1) IN
+    PopulateOn(c1, r.s2, y, r.offs2)
+
 (*----------------------------- die -------------------------------------*)
 TD == << Decl(1, 17, TRUE, << <<3, FD1>>, <<16, FU>> >>), Decl(2, 46, FALSE, << <<3, FD1>> >>),
          Decl(3, 52, FALSE, <<>>), Decl(4, 11, TRUE, << <<63, FFP>>, <<11, FD2>>, <<3, FD1>> >>) >>
 TDBytes == <<1,17,1,3,11,16,15,0,0, 2,46,0,3,11,0,0, 3,52,0,0,0, 4,11,1,63,25,11,5,3,11,0,0, 0>>
 LiteralsOk == /\ ASec = EncTable(T1) \o EncTable(T2) \o EncTable(TDup) \o TBadBytes
               /\ O2 = Len(EncTable(T1)) /\ O3 = O2 + Len(EncTable(T2)) /\ O4 = O3 + Len(EncTable(TDup))
-              /\ TDBytes = EncTable(TD)
+              /\ TDBytes = EncTable(TD) /\ Len(BSec) = Len(ASec)
+              /\ AbbrevsAt(BSec, 0).ok /\ ~AbbrevsAt(BSec, O2).ok /\ AbbrevsAt(BSec, O3).ok /\ AbbrevsAt(BSec, O4).ok
+              /\ AbbrevsAt(ASec, 0).ok /\ AbbrevsAt(ASec, O2).ok /\ ~AbbrevsAt(ASec, O3).ok /\ ~AbbrevsAt(ASec, O4).ok
+              /\ AbbrevsAt(ASec, 0) # AbbrevsAt(BSec, 0)
               /\ ParseTable(TDBytes, 1, <<>>) = [ok |-> TRUE, decls |-> TD]
 Toks == { <<1, 7, 133, 1>>, <<2, 9>>, <<3>>, <<4, 52, 18, 5>>, <<0>>, <<9>>, <<2>> }
 RECURSIVE Flat(_)
@@ -52,8 +81,12 @@ Fuel == 14
 
 Init == \/ \E s \in Strats : c = [mode |-> "cache", strat |-> s, offs |-> <<>>]
         \/ c = [mode |-> "die", toks |-> <<>>]
+        \/ \E pre \in Pres, f \in {"A", "B"}, s1 \in {"dup", "all"}, s2 \in {"dup", "all"}, o1 \in Firsts :
+             c = [mode |-> "repop", pre |-> pre, first |-> f, s1 |-> s1, s2 |-> s2, offs1 |-> o1, offs2 |-> <<>>]
 Next == IF c.mode = "cache"
         THEN Len(c.offs) < MaxUnits /\ \E o \in OffPool : c' = [c EXCEPT !.offs = Append(@, o)]
+        ELSE IF c.mode = "repop"
+        THEN Len(c.offs2) < (IF MaxTok <= 3 THEN 2 ELSE 3) /\ \E o \in Pool4 : c' = [c EXCEPT !.offs2 = Append(@, o)]
         ELSE Len(c.toks) < MaxTok /\ \E t \in Toks : c' = [c EXCEPT !.toks = Append(@, t)]
 
 PoolSeq == <<0, O2, O3, O4, 1, Len(ASec), Len(ASec) + 3>>
@@ -89,5 +122,22 @@ InvDie ==
           tree |-> [out |-> full.out, st |-> full.st],
           partial |-> [k \in 1..(n + 1) |-> LET part == Traverse(b, d, NewTree, k - 1) IN [out |-> part.out, st |-> part.st]]])>>)
 
-Inv == IF c.mode = "cache" THEN InvCache ELSE InvDie
+(* a cache that was used for another section before: get = direct parse of the CURRENT section *)
+InvRepop ==
+    LET cache == RCache(c)
+        y == SecOf(Other(c.first)) IN
+    /\ \A j \in DOMAIN RProbe : CacheGet(cache, y, RProbe[j]) = AbbrevsAt(y, RProbe[j])
+    /\ Len(c.offs2) > 0 => PrintT(<<"CASE", ToJson(
+         [sys |-> "repop", secs |-> [A |-> ASec, B |-> BSec], codes |-> ProbeCodes, probe |-> RProbe,
+          steps |-> (CASE c.pre = "none"  -> <<>>
+                       [] c.pre = "set0"  -> << [op |-> "set", at |-> 0, from |-> c.first, off |-> O2] >>
+                       [] c.pre = "set30" -> << [op |-> "set", at |-> O3, from |-> "A", off |-> 0] >>)
+                   \o << [op |-> "populate", strat |-> c.s1, sec |-> c.first, info |-> InfoOf(c.offs1)],
+                         [op |-> "populate", strat |-> c.s2, sec |-> Other(c.first), info |-> InfoOf(c.offs2)] >>,
+          cur |-> Other(c.first),
+          units |-> [j \in DOMAIN c.offs2 |-> TableObs(AbbrevsAt(y, c.offs2[j]), ProbeCodes)],
+          gets |-> [j \in DOMAIN RProbe |-> TableObs(AbbrevsAt(y, RProbe[j]), ProbeCodes)],
+          ncached |-> Cardinality(DOMAIN cache)])>>)
+
+Inv == IF c.mode = "cache" THEN InvCache ELSE IF c.mode = "repop" THEN InvRepop ELSE InvDie
 =============================================================================
